@@ -644,7 +644,8 @@ func runC19(w *core.W) {
 			run(&DateCase{Fn: "addDate", Unix: u, Nsec: nsec, Zone: "Local", Args: []int64{0, r.Int63n(25) - 12, r.Int63n(63) - 31}})
 		}
 		if i%5 == 0 {
-			names := []string{"UTC", "Asia/Shanghai", "America/New_York", "Europe/London", "Asia/Kolkata", "Pacific/Apia", "No/Such_Zone", "???", "Mars/Olympus_Mons", "Local", "Asia/Tehran", "Australia/Lord_Howe", "EST", "Office/Basement", "Europe/London", "UTC"}
+			names := []string{"UTC", "Asia/Shanghai", "America/New_York", "Europe/London", "Asia/Kolkata", "Pacific/Apia", "No/Such_Zone", "???", "Mars/Olympus_Mons", "Local", "Asia/Tehran", "Australia/Lord_Howe", "EST", "Office/Basement", "Europe/London", "UTC",
+				"america/new_york", "ASIA/SHANGHAI", "europe/london", "utc", "est", "MST", "PST", "CST", "HKT", "JST", "IST", "Asia/shanghai"}
 			run(&DateCase{Fn: "useTimezone", Unix: u, Nsec: nsec, Zone: zone, Str: names[r.Intn(len(names))]})
 			run(&DateCase{Fn: "timeFormat", Unix: u, Nsec: nsec, Zone: zone, Str: c19Layouts[r.Intn(len(c19Layouts))]})
 		}
